@@ -749,6 +749,52 @@ theorem foldReqH_pure (ns : List String) : ∀ (s : Store) (acc : Acc) (a : ReqA
       refine ⟨acc', ?_, by simpa using hget'⟩
       simp only [foldReqH, hstep]; exact hfold
 
+/-! ### legacy mode -/
+
+theorem foldl_merge_lookup (edits : List Hdrs) (h : Hdrs) (k : String) :
+    (edits.foldl merge h).lookup k = lastWriter k (h :: edits) := by
+  induction edits generalizing h with
+  | nil => simp [lastWriter]
+  | cons e es ih => rw [List.foldl_cons, ih, lastWriter_merge]
+
+theorem rerun_foldl_eq (as : List RespAct) (h : Hdrs) :
+    as.foldl ensureRespHdrs h = (respEdits as).foldl merge h := by
+  induction as generalizing h with
+  | nil => rfl
+  | cons a as ih => cases a <;> simp [respEdits, ensureRespHdrs, ih]
+
+theorem rerunEarly_of_not_early (rs : List Remedy) (a : ReqAct) (h : a.isEarly = false) :
+    rerunEarly rs a = a := by
+  cases a <;> simp_all [rerunEarly, ReqAct.isEarly]
+
+theorem legacyReqHolds_legacyReq (H0 : Hdrs) (rs : List Remedy) :
+    legacyReqHolds H0 rs (encodeReq (legacyReq H0 rs)) = true := by
+  unfold legacyReqHolds legacyReq legacyFoldReq
+  simp only [decodeReq_encodeReq]
+  cases hfe : firstEarly (scriptReq { hdrs := H0 } rs) with
+  | none =>
+    have hno := firstEarly_none _ hfe
+    have hE : (foldReq (scriptReq { hdrs := H0 } rs)).isEarly = false := by
+      show (List.foldl reqPrio .noop _).isEarly = false
+      rw [foldl_reqPrio_isEarly]
+      have h0 : ReqAct.noop.isEarly = false := rfl
+      rw [h0, Bool.false_or, List.any_eq_false]
+      intro a ha; simp [hno a ha]
+    rw [rerunEarly_of_not_early _ _ hE]
+    exact reqFoldOk_eraseRm _ _ (reqFoldOk_sanitized _)
+  | some e =>
+    obtain ⟨pre, post, hsplit, hpre, he⟩ := firstEarly_some _ e hfe
+    have hf : foldReq (scriptReq { hdrs := H0 } rs) = e := by
+      rw [hsplit]; exact foldl_reqPrio_first_early .noop pre post e rfl hpre he
+    rw [hf]
+    cases e with
+    | early s b h =>
+      simp only [rerunEarly, ReqAct.sanitized, ReqAct.eraseRm, beq_self_eq_true, Bool.true_and]
+      apply hdrsUnion_of_lookup
+      intro k
+      rw [lookup_sanitize, rerun_foldl_eq, foldl_merge_lookup, lastWriter_sanitize]
+    | _ => simp [ReqAct.isEarly] at he
+
 /-! ### the observable history of a model run (what `lvdriver_c07 run` prints, step by step) -/
 
 /-- What the driver's `run` prints for a request fold over `as` (every prefix observed) … -/
